@@ -1,9 +1,9 @@
 #!/bin/sh
 # re-evaluate every archived seed against the check of its own property (and extra checks given in meta) - slow
-for d in /verif/seeded/C*-[A-F]; do
+for d in /verif/seeded/C*-[A-G]; do
   name=$(basename $d); pid=${name%-*}
   extra=""
-  case $name in C12-C) extra=",C11";; esac
+  case $name in C12-C) extra=",C11";; C12-G) extra=",C13";; esac
   timeout 2400 python3 tools/seed_eval.py $d --checks "$pid$extra" > /tmp/seedall/$name.json 2>/dev/null
   python3 - /tmp/seedall/$name.json $name <<'PY'
 import json,sys
